@@ -231,6 +231,71 @@ def e2(prog: Program, chk: Check) -> None:
                         "" if ok else "in/out transforms are handed over swapped", c)
 
 
+def e3(prog: Program, chk: Check) -> None:
+    chk.rule("E3", "Bath stores exactly the solver's outputs: eigenvalues (tuple position 0) as the "
+             "diagonal operator, eigenvectors (position 1) as the transform, unmodified; the "
+             "reconstruction U D U^dagger == O is asserted; an operator that is already diagonal "
+             "keeps itself with the identity as transform", floor=4)
+    u = prog.unit("bath:Bath.__init__")
+    du = DefUse(u, CFG(u.node, exc_edges=False))
+    chk.saw(u, du.cfg)
+    solver_nodes = [n for n in du.cfg.nodes if n.kind == "stmt" and isinstance(n.ast, ast.Assign)
+                    and isinstance(n.ast.value, ast.Call) and
+                    ((_resolve(u.module, n.ast.value) or "").replace("np.", "numpy.")
+                     in GENERAL_SOLVERS | HERMITIAN_SOLVERS)]
+    if len(solver_nodes) != 1:
+        raise AnalysisError("E3: eigendecomposition in Bath.__init__ not found")
+    sn = solver_nodes[0]
+    pos = {d.name: d.sel[0][1] for d in du.gen.get(sn.id, []) if d.sel and d.sel[0][0] == "idx"}
+    for n in du.cfg.nodes:
+        if not (n.kind == "stmt" and isinstance(n.ast, ast.Assign)):
+            continue
+        t = dotted(n.ast.targets[0])
+        ctx_nondiag = [br for (tst, br) in __import__("oqv.astutil", fromlist=["x"]).branch_context(
+            u.node, n.ast) if "diag" in norm(tst)]
+        if t == "self._unitary" and ctx_nondiag == [False]:
+            v = n.ast.value
+            ok = isinstance(v, ast.Name) and pos.get(v.id) == 1 and \
+                {d.node for d in du.reaching(n.id, v.id)} == {sn.id}
+            chk.add("E3", u, f"self._unitary = {norm(v)}", ok,
+                    "eigenvector matrix of the solver, unmodified" if ok else
+                    "the stored transform is not the (unmodified) eigenvector output", n.ast)
+        if t == "self._coupling_operator" and ctx_nondiag == [False]:
+            v = n.ast.value
+            inner = v.args[0] if isinstance(v, ast.Call) and (dotted(v.func) or "").endswith("diag") \
+                and v.args else None
+            ok = isinstance(inner, ast.Name) and pos.get(inner.id) == 0 and \
+                {d.node for d in du.reaching(n.id, inner.id)} == {sn.id}
+            chk.add("E3", u, f"self._coupling_operator = {norm(v)}", ok,
+                    "diag of the solver's eigenvalues, unmodified" if ok else
+                    "eigenvalues are reordered / modified independently of the eigenvectors", n.ast)
+        if t == "self._unitary" and ctx_nondiag == [True]:
+            ok = isinstance(n.ast.value, ast.Call) and \
+                (dotted(n.ast.value.func) or "").split(".")[-1] in ("identity", "eye")
+            chk.add("E3", u, f"diagonal operator: self._unitary = {norm(n.ast.value)}", ok, "", n.ast)
+    rec = False
+    for st in walk_local(u.node):
+        if isinstance(st, ast.Assert) and isinstance(st.test, ast.Call) and \
+                (dotted(st.test.func) or "").endswith("allclose") and len(st.test.args) >= 2:
+            txt = norm(st.test.args[1]) + norm(st.test.args[0])
+            prod = [a for a in st.test.args[:2] if isinstance(a, ast.BinOp)
+                    and isinstance(a.op, ast.MatMult)]
+            if prod:
+                fac = []
+                cur = prod[0]
+                while isinstance(cur, ast.BinOp) and isinstance(cur.op, ast.MatMult):
+                    fac.insert(0, cur.right)
+                    cur = cur.left
+                fac.insert(0, cur)
+                if len(fac) == 3 and dotted(fac[0]) == "self._unitary" and \
+                        dotted(fac[1]) == "self._coupling_operator" and \
+                        adjoint_base(fac[2]) is not None and \
+                        dotted(adjoint_base(fac[2])) == "self._unitary":
+                    rec = True
+    chk.add("E3", u, "assert O == U D U^dagger", rec,
+            "" if rec else "the reconstruction check of the decomposition is gone")
+
+
 def run(prog: Program, chk: Check) -> None:
     chk.explanation = (
         "Decides two structural conditions of C05: E1 the diagonalising transform of the "
@@ -243,3 +308,4 @@ def run(prog: Program, chk: Check) -> None:
                        "every Hermitian input; geev (eig) does not for repeated eigenvalues"]
     e1(prog, chk)
     e2(prog, chk)
+    e3(prog, chk)
